@@ -261,6 +261,8 @@ macro_rules! range_type {
         /// a = [start index, end index]
         fn $fname(c: &Case) -> Result<(), String> {
             let vals: &[$t] = &[$($v),*];
+            let n = vals.len();
+            let c = &Case { a: c.a.iter().map(|&i| i % n).collect(), b: c.b.iter().map(|&i| i % n).collect(), ..c.clone() };
             let (a, b) = (vals[c.a[0]]..vals[c.a[1]], vals[c.b[0]]..vals[c.b[1]]);
             let w = a == b;
             let k = $eqr(&a, &b);
@@ -301,15 +303,18 @@ macro_rules! range_type {
         }
     };
 }
-range_type!(ck_r_u8, u8, [0, 1, 255], eq_range_u8, eq_rangeinc_u8);
-range_type!(ck_r_u16, u16, [0, 1, u16::MAX], eq_range_u16, eq_rangeinc_u16);
-range_type!(ck_r_u32, u32, [0, 1, u32::MAX], eq_range_u32, eq_rangeinc_u32);
-range_type!(ck_r_u64, u64, [0, 1, u64::MAX], eq_range_u64, eq_rangeinc_u64);
-range_type!(ck_r_u128, u128, [0, 1, u128::MAX], eq_range_u128, eq_rangeinc_u128);
-range_type!(ck_r_usize, usize, [0, 1, usize::MAX], eq_range_usize, eq_rangeinc_usize);
-range_type!(ck_r_char, char, ['\0', 'a', '\u{10ffff}'], eq_range_char, eq_rangeinc_char);
-const RANGES: [(&str, fn(&Case) -> Result<(), String>); 7] =
-    [("Range<u8>", ck_r_u8), ("Range<u16>", ck_r_u16), ("Range<u32>", ck_r_u32), ("Range<u64>", ck_r_u64), ("Range<u128>", ck_r_u128), ("Range<usize>", ck_r_usize), ("Range<char>", ck_r_char)];
+// the first three values are the boundary values; the others are a small value and values congruent to it modulo
+// 2^8, 2^16, 2^32, 2^64 (bounds that agree after a narrowing cast must still compare unequal)
+range_type!(ck_r_u8, u8, [0, 1, 255, 5, 133], eq_range_u8, eq_rangeinc_u8);
+range_type!(ck_r_u16, u16, [0, 1, u16::MAX, 5, 5 + (1 << 8), 5 + (1 << 15)], eq_range_u16, eq_rangeinc_u16);
+range_type!(ck_r_u32, u32, [0, 1, u32::MAX, 5, 5 + (1 << 8), 5 + (1 << 16), 5 + (1 << 31)], eq_range_u32, eq_rangeinc_u32);
+range_type!(ck_r_u64, u64, [0, 1, u64::MAX, 5, 5 + (1 << 8), 5 + (1 << 16), 5 + (1 << 32), 5 + (1 << 63)], eq_range_u64, eq_rangeinc_u64);
+range_type!(ck_r_u128, u128, [0, 1, u128::MAX, 5, 5 + (1 << 8), 5 + (1 << 16), 5 + (1 << 32), 5 + (1 << 64), 5 + (1 << 127)], eq_range_u128, eq_rangeinc_u128);
+range_type!(ck_r_usize, usize, [0, 1, usize::MAX, 5, 5 + (1 << 8), 5 + (1 << 16), 5 + (1 << 32), 5 + (1 << 63)], eq_range_usize, eq_rangeinc_usize);
+range_type!(ck_r_char, char, ['\0', 'a', '\u{10ffff}', '\u{161}', '\u{10061}'], eq_range_char, eq_rangeinc_char);
+/// (name, check, number of values in its table)
+const RANGES: [(&str, fn(&Case) -> Result<(), String>, usize); 7] =
+    [("Range<u8>", ck_r_u8, 5), ("Range<u16>", ck_r_u16, 6), ("Range<u32>", ck_r_u32, 7), ("Range<u64>", ck_r_u64, 8), ("Range<u128>", ck_r_u128, 9), ("Range<usize>", ck_r_usize, 8), ("Range<char>", ck_r_char, 5)];
 
 const STR_ALPHA: [&str; 4] = ["a", "b", "é", "\0"];
 fn mk_str(ix: &[usize]) -> String {
@@ -580,10 +585,14 @@ fn explore(ctx: &mut Ctx) {
             }
         }
     }
-    for (name, _) in RANGES {
-        for a in 0..9 {
-            for b in 0..9 {
-                options(ctx, case(name, "range", vec![a / 3, a % 3], vec![b / 3, b % 3]));
+    for (name, _, n) in RANGES {
+        for a in 0..n * n {
+            for b in 0..n * n {
+                // all four exhaustion combinations for the boundary values, fresh ranges for the congruent ones
+                if a < 9 && b < 9 && n >= 3 {
+                    options(ctx, case(name, "range", vec![a / 3, a % 3], vec![b / 3, b % 3]));
+                }
+                eval(ctx, case(name, "range", vec![a / n, a % n], vec![b / n, b % n]));
             }
         }
     }
